@@ -698,6 +698,64 @@ fn t_root(ev: &mut Vec<Value>, cfg: &Cfg) -> bool {
             let v = Error::NdShape(ndarray::ShapeError::from_kind(ndarray::ErrorKind::IncompatibleShape));
             hist!(ev, cfg, "skipped", Error, v, |e: &Error| obs_err(e), noeq);
         }
+        // error values the public API itself returns on small inputs (not variants constructed by name), as they
+        // are and converted into the error types that wrap linfa::Error (the `?` conversions of the crates)
+        "Error.api" => {
+            use linfa::prelude::*;
+            let produced: Error = match cfg.var % 4 {
+                0 => Array1::<linfa::dataset::Pr>::from(vec![]).log_loss(&[]).expect_err("harness: setup: log_loss of nothing succeeded"),
+                1 => Array1::from(vec![0usize, 1, 1]).confusion_matrix(Array1::from(vec![0usize, 1])).expect_err("harness: setup: mismatched confusion matrix succeeded"),
+                2 => Array1::<f64>::zeros(0).mean_squared_error(&Array1::<f64>::zeros(0)).expect_err("harness: setup: mean squared error of nothing succeeded"),
+                _ => linfa_trees::DecisionTree::<f64, usize>::params().min_impurity_decrease(0.0).check().expect_err("harness: setup: invalid tree parameters accepted"),
+            };
+            match cfg.var / 4 {
+                0 => hist!(ev, cfg, "plain", Error, produced, |e: &Error| obs_err(e), noeq),
+                1 => hist!(ev, cfg, "plain", PlattError, produced.into(), |e: &PlattError| obs_err(e), noeq),
+                2 => hist!(ev, cfg, "plain", linfa_elasticnet::ElasticNetError, produced.into(), |e: &linfa_elasticnet::ElasticNetError| obs_err(e), noeq),
+                3 => hist!(ev, cfg, "plain", linfa_ftrl::FtrlError, produced.into(), |e: &linfa_ftrl::FtrlError| obs_err(e), noeq),
+                _ => bad_var(cfg),
+            }
+        }
+        // Structural probe of the error enums: every variant the *deserializer* knows is obtained by decoding a
+        // crafted index-based document (variant index, zero payload) -- including variants this harness has never
+        // heard of -- and must then survive the round trips like any other value.  Configurations 0..9 sweep the
+        // outer variant index, 10..17 the variant index of the wrapped linfa::Error.
+        "Error.sweep" | "PlattError.sweep" | "ElasticNetError.sweep" | "FtrlError.sweep" => {
+            fn crafted(outer: u32, inner: u32) -> Vec<u8> {
+                let mut b = Vec::new();
+                b.extend_from_slice(&outer.to_le_bytes());
+                b.extend_from_slice(&inner.to_le_bytes());
+                b.extend_from_slice(&[0u8; 64]);
+                b
+            }
+            fn pick<T: DeserializeOwned + std::fmt::Debug>(var: usize) -> Option<T> {
+                let from = |o: u32, i: u32| -> Option<T> { bincode::deserialize::<T>(&crafted(o, i)).ok() };
+                if var < 10 {
+                    from(var as u32, 0)
+                } else {
+                    // the outer variant that wraps a linfa::Error: its zero document reads `..(Parameters(""))`
+                    let outer = (0..16u32).find(|o| from(*o, 0).map(|v| format!("{:?}", v).contains("(Parameters(\"\"))")).unwrap_or(false))?;
+                    from(outer, (var - 10) as u32)
+                }
+            }
+            macro_rules! sweep {
+                ($T:ty) => {
+                    match pick::<$T>(cfg.var) {
+                        Some(v) => hist!(ev, cfg, "plain", $T, v, |e: &$T| obs_err(e), noeq),
+                        None => {
+                            ev.push(json!({"ev": "create", "h": 0, "type": cfg.ty, "role": "plain", "ft": cfg.ft}));
+                            ev.push(json!({"ev": "absent", "index": cfg.var}));
+                        }
+                    }
+                };
+            }
+            match cfg.ty.as_str() {
+                "Error.sweep" => sweep!(Error),
+                "PlattError.sweep" => sweep!(PlattError),
+                "ElasticNetError.sweep" => sweep!(linfa_elasticnet::ElasticNetError),
+                _ => sweep!(linfa_ftrl::FtrlError),
+            }
+        }
         "PlattError" => {
             let v = match cfg.var {
                 0 => PlattError::LineSearchNotConverged,
